@@ -92,6 +92,20 @@ def main(tier):
                 s = empt[0]
             jobs.append(dict(par=dict(stack=st, seed=seed() + 171, level=5), muts=b["muts"], ops=b["ops"], labels=s["labels"],
                              stream=s["stream"], names=s["hid"]["names"], info=s["hid"]["info"]))
+    # value classes whose effect depends on WHICH block carries them (a length that, read as a signed displacement, lands on a
+    # block start; a sign boundary): single-mutation behaviours with those classes on every chosen archive, two stackings
+    seenw = set()
+    for b in behs:
+        if len(b["muts"]) == 1 and b["muts"][0]["c"].startswith(("neg", "sign")) and b["ops"][0] == "open":
+            ops2 = b["ops"][:2]
+            key = (b["muts"][0]["f"], b["muts"][0]["c"], tuple(ops2))
+            if key in seenw:
+                continue
+            seenw.add(key)
+            for s in chosen:
+                for st in ("raw", "comp"):
+                    jobs.append(dict(par=dict(stack=st, seed=seed() + 172, level=5), muts=b["muts"], ops=ops2, labels=s["labels"],
+                                     stream=s["stream"], names=s["hid"]["names"], info=s["hid"]["info"]))
     wd = workdir("c08")
     exe = build("s20")
     nsh = 12
